@@ -14,6 +14,22 @@ from __future__ import annotations
 import ast
 import re
 
+def canon(tree):
+    """Canonical polarity of two-armed `if` statements: when an `if` has an `else`
+    that is not an `elif`, its test does not start with `not` (the arms are
+    exchanged instead).  `if not c: A else: B` and `if c: B else: A` are the same
+    program and, after this, the same tree.  Applied to every module the model
+    loads and to every pattern, so that no rule depends on which way round a
+    two-armed conditional happens to be written."""
+    for n in ast.walk(tree):
+        if isinstance(n, ast.If) and n.orelse and not (
+                len(n.orelse) == 1 and isinstance(n.orelse[0], ast.If)) \
+                and isinstance(n.test, ast.UnaryOp) and isinstance(n.test.op, ast.Not):
+            n.test = n.test.operand
+            n.body, n.orelse = n.orelse, n.body
+    return tree
+
+
 _MV = "MV__"
 _MX = "MX__"
 
@@ -29,7 +45,7 @@ _cache: dict[str, list] = {}
 
 def compile_pat(pattern: str):
     if pattern not in _cache:
-        tree = ast.parse(_prep(pattern.strip()))
+        tree = canon(ast.parse(_prep(pattern.strip())))
         body = tree.body
         if len(body) == 1 and isinstance(body[0], ast.Expr):
             _cache[pattern] = ("expr", body[0].value)
@@ -160,7 +176,7 @@ def _auto(snippet: str):
     change of the API that is being called."""
     if snippet in _auto_cache:
         return _auto_cache[snippet]
-    tree = ast.parse(snippet.strip())
+    tree = canon(ast.parse(snippet.strip()))
     funcs = {id(n.func) for n in ast.walk(tree)
              if isinstance(n, ast.Call) and isinstance(n.func, ast.Name)}
     for n in ast.walk(tree):
